@@ -7,6 +7,15 @@ ROOT = os.path.dirname(os.path.dirname(os.path.abspath(__file__)))
 ALL = [f"C{i:02d}" for i in range(1, 21)]
 
 CLAIMED = {
+    "C03": dict(
+        text="Bounded symbolic execution (CrossHair/z3) of one inductive step of the real Server.dispatcher per verb of the live command table, from "
+             "an arbitrary (symbolic) session pre-state with symbolic login / password strings: 503 + untouched spy backend + unchanged state before login; "
+             "a session is logged in afterwards only via a password-less USER or a matching PASS; USER drops the old login; a PWD probe confirms the gate.",
+        note="Trusted: CrossHair/z3, the scripted control channel and listener stubs, SpyPathIO ledger; the pre-state generator over-approximates reachable "
+             "states (logged => user). Outside: custom user managers, logins/passwords beyond the length bound, quick tier fixes the pending-rename dimension.",
+        technique="bounded symbolic execution of the real Python code (CrossHair 0.0.110 + z3): inductive one-step harness per verb",
+        design_ref="DESIGN.md section 3 C03",
+    ),
     "C20": dict(
         text="Bounded symbolic execution (CrossHair/z3) of the real parse_command / Client.command / Client.login / Server.dispatcher: "
              "non-interference of log records in the password, for every password inside the length bound and every login outcome; "
